@@ -445,6 +445,15 @@ func (r *c15Runner) tick(d time.Duration) {
 	r.observe(&st, fromEUT, "")
 }
 
+// like tick, but what the peer emits meanwhile (retransmissions) joins the pool
+func (r *c15Runner) tickPool(d time.Duration) {
+	time.Sleep(d)
+	fromEUT, fromPeer := r.drain()
+	r.poolFromPeer(fromPeer, "", nil)
+	st := c15Step{Op: "tick"}
+	r.observe(&st, fromEUT, "")
+}
+
 func (r *c15Runner) eutSend() {
 	if _, err := r.eut.Conn.Write([]byte("c15-from-eut")); err != nil {
 		r.res.Err = "eut write: " + err.Error()
@@ -661,6 +670,66 @@ func c15DirectedOldEpoch(r *c15Runner, rng *vRand) {
 	r.deliver(len(r.pool)-1, "cand1")
 }
 
+// Directed scenario "the peer's KeyUpdate was processed, our ACK is lost, the peer's address changes"
+// (DTLS 1.3): the EUT processes the peer's KeyUpdate (its remote epoch moves on at once) but the ACK
+// never reaches the peer, which therefore stays in the OLD epoch. Its next application record and,
+// one retransmission interval later, its retransmitted KeyUpdate arrive from cand1. Each is the
+// newest record the EUT has received (nothing of the new epoch exists yet), so each MUST start a
+// path challenge - otherwise the ACK keeps going to the dead address for good. The second challenge
+// is answered from cand1: the address changes, the ACK finally gets through and the peer's first
+// record of the new epoch is read from cand1.
+func c15DirectedAckLost(r *c15Runner, rng *vRand) {
+	for i := 0; i < 2 && r.res.Err == ""; i++ {
+		r.peerWrite("", rng)
+		r.deliver(len(r.pool)-1, r.peer.Name)
+	}
+	finish := r.peerKeyUpdateBegin() // KeyUpdate delivered from the peer's own address; the ACK is withheld
+	if finish == nil || r.res.Err != "" {
+		return
+	}
+	old := r.epoch
+	r.peerWrite("", rng)
+	if last := r.pool[len(r.pool)-1]; last.Epoch != old || last.Kind != "app" {
+		r.res.Err = "acklost: the peer did not stay in the old epoch"
+
+		return
+	}
+	r.deliver(len(r.pool)-1, "cand1") // newest record received: challenge to cand1
+	n0 := len(r.pool)
+	r.tickPool(time.Second) // the challenge expires unanswered; the peer retransmits its KeyUpdate
+	retx := -1
+	for i := n0; i < len(r.pool); i++ {
+		if r.pool[i].Kind == "hs" && r.pool[i].Epoch == old {
+			retx = i
+		}
+	}
+	if retx < 0 {
+		r.res.Err = "acklost: no retransmitted KeyUpdate"
+
+		return
+	}
+	e0 := len(r.emits)
+	r.deliver(retx, "cand1") // newest again: a fresh challenge to cand1 (and the ACK, to the old address)
+	var chal *c15Emit
+	for _, e := range r.emits[e0:] {
+		if e.Type == "chal" && e.To == "cand1" {
+			chal = e
+		}
+	}
+	if chal != nil {
+		r.forward(chal, r.eut.Name)
+		for i, p := range r.pool {
+			if p.Kind == "resp" && p.Cookie == chal.Cookie && p.Uses == 0 {
+				r.deliver(i, "cand1")
+			}
+		}
+	}
+	finish() // the ACK reaches the peer at last
+	r.eutSend()
+	r.peerWrite("", rng)
+	r.deliver(len(r.pool)-1, "cand1")
+}
+
 func c15Gen(n int) func() []byte {
 	if n < 0 {
 		return nil
@@ -672,7 +741,8 @@ func c15Gen(n int) func() []byte {
 // mode: "" random script | "late" (late path_response, `directed` = when) | "stale0" (the peer's first
 // record of the application epoch is withheld during the handshake and shows up later from a new
 // address) | "oldepoch" (DTLS 1.3: a record of the epoch superseded by a key update shows up later
-// from a new address)
+// from a new address) | "acklost" (DTLS 1.3: KeyUpdate processed, ACK lost, the peer - still in the old
+// epoch - continues from a new address: a challenge is REQUIRED)
 func c15Run(t *testing.T, rng *vRand, suite CipherSuiteID, v13, noRRC bool, lenClient, lenServer int, eutName string, nOps int, mode string, directed time.Duration) c15Case {
 	t.Helper()
 	ccfg, scfg := vPSKPair(suite)
@@ -813,6 +883,12 @@ func c15Run(t *testing.T, rng *vRand, suite CipherSuiteID, v13, noRRC bool, lenC
 		c15DirectedOldEpoch(r, rng)
 		res.Script = "old-epoch-record-after-key-update"
 		res.Variant += "-oldepoch"
+
+		return res
+	case "acklost":
+		c15DirectedAckLost(r, rng)
+		res.Script = "key-update-ack-lost-then-new-address"
+		res.Variant += "-acklost"
 
 		return res
 	}
@@ -972,12 +1048,14 @@ func TestVerifC15E2E(t *testing.T) {
 				jobs = append(jobs, job{suite: suites[rng.intn(len(suites))], v13: v13, lc: p[0], ls: p[1], eut: eut, mode: "stale0"})
 				if v13 {
 					jobs = append(jobs, job{v13: true, lc: p[1], ls: p[0], eut: eut, mode: "oldepoch"})
+					jobs = append(jobs, job{v13: true, lc: p[0], ls: p[1], eut: eut, mode: "acklost"})
 				}
 			}
 		}
 		q := [][2]int{{4, 4}, {-1, -1}}[rep%2]
 		jobs = append(jobs, job{suite: suites[rng.intn(len(suites))], norrc: q[0] > 0, lc: q[0], ls: q[1], eut: names[rep%2], mode: "stale0"})
 		jobs = append(jobs, job{v13: true, norrc: q[0] > 0, lc: q[0], ls: q[1], eut: names[rep%2], mode: "oldepoch"})
+		jobs = append(jobs, job{v13: true, norrc: q[0] > 0, lc: q[0], ls: q[1], eut: names[rep%2], mode: "acklost"})
 	}
 	for _, j := range jobs {
 		j := j
